@@ -109,6 +109,9 @@ class MockPg:
         self.named = []                      # z3 conditions: "a named protocol statement exists"
         self.named_names = []
         self.closed = False
+        self.last_delivered = None
+        self.stmts = {}                      # extended protocol: statement name -> SQL text (None when not concrete)
+        self.portals = {}                    # portal name -> statement name
         self.nreq = 0
         self.reply_log = []                  # (request index, message bytes) in generation order
 
@@ -144,6 +147,7 @@ class MockPg:
         for m in ms:
             self.stream.inbound.extend(m)
             self.cur['delivered'].append(m)
+            self.last_delivered = m
         self.cur['status_after'] = self.status
 
     def ready(self, req):
@@ -174,8 +178,15 @@ class MockPg:
                     self.set_status('E')
                 self.deliver([self.emit(req, 'E', b'SERROR\0C57014\0MCOPY failed\0\0'), self.ready(req)])
                 return
-            # anything else aborts the COPY (protocol: non-copy message during COPY IN => error, back to normal)
+            if code in 'HS':
+                return        # protocol: Flush and Sync are ignored during COPY IN
+            # protocol: any other message type during COPY IN is an error that aborts the copy: ErrorResponse, the rest of the
+            # COPY's Query message is discarded, ReadyForQuery; the offending message itself is consumed by that error
             self.copy_in = False
+            if not self.st_is('I'):
+                self.set_status('E')
+            self.deliver([self.emit(req, 'E', b'SERROR\0C08P01\0Munexpected message type during COPY from stdin\0\0'), self.ready(req)])
+            return
         if code in 'dcf':
             return        # protocol: CopyData / CopyDone / CopyFail outside COPY IN are dropped by the backend
         if code == 'Q':
@@ -188,14 +199,21 @@ class MockPg:
                 nm = body[0]
                 self.named.append(nm.z() != 0)
                 self.named_names.append(show(body[:8]))
+                name, sql = self.cstrings(body, 2)
+                if name is not None:
+                    self.stmts[name] = sql
                 self.pending.append(self.emit(req, '1'))
             elif code == 'B':
+                portal, stmt = self.cstrings(body, 2)
+                if portal is not None:
+                    self.portals[portal] = stmt
                 self.pending.append(self.emit(req, '2'))
             elif code == 'D':
                 self.pending.append(self.emit(req, 'n'))
             elif code == 'E':
-                self.pending.append(self.emit(req, 'D', struct.pack('>hi', 1, 6) + b'b%dr%03d' % (self.idx % 10, req['n'] % 1000)))
-                self.pending.append(self.emit(req, 'C', b'SELECT 1\0'))
+                portal, = self.cstrings(body, 1)
+                sql = self.stmts.get(self.portals.get(portal)) if portal is not None else None
+                self.execute_extended(req, sql)
             elif code == 'C':
                 self.pending.append(self.emit(req, '3'))
             elif code == 'H':
@@ -212,6 +230,63 @@ class MockPg:
         else:
             # unknown frontend message: FATAL protocol violation, backend closes
             self.closed = True
+
+    @staticmethod
+    def cstrings(body, n):
+        """The first n NUL-terminated strings of a message body, as bytes (None where a byte is symbolic)."""
+        out, cur, ok_ = [], [], True
+        for b in body:
+            if len(out) == n:
+                break
+            if b.concrete and b.v == 0:
+                out.append(bytes(cur) if ok_ else None)
+                cur, ok_ = [], True
+            elif b.concrete:
+                cur.append(b.v)
+            else:
+                ok_ = False
+        while len(out) < n:
+            out.append(None)
+        return out
+
+    def execute_extended(self, req, sql):
+        """Execute of a portal: transaction control / session statements have their semantics, everything else is one row;
+        an error puts the backend in skip-until-Sync mode (protocol)."""
+        u = re.sub(r'\s+', ' ', sql.decode('latin1').strip().rstrip(';').upper()) if sql is not None else None
+        if u is not None and not self.st_is('I') and self.st_is('E') and u not in ('ROLLBACK', 'ABORT', 'COMMIT', 'END'):
+            self.pending.append(self.emit(req, 'E', b'SERROR\0C25P02\0Mcurrent transaction is aborted\0\0'))
+            self.ignore_till_sync = True
+            return
+        if u is None:
+            pass
+        elif u in ('BEGIN', 'START TRANSACTION') or u.startswith('BEGIN '):
+            self.set_status('T')
+            self.pending.append(self.emit(req, 'C', b'BEGIN\0'))
+            return
+        elif u in ('COMMIT', 'END', 'ROLLBACK', 'ABORT'):
+            failed = self.st_is('E')
+            self.set_status('I')
+            self.pending.append(self.emit(req, 'C', b'ROLLBACK\0' if (failed or u in ('ROLLBACK', 'ABORT')) else b'COMMIT\0'))
+            return
+        elif u.startswith('SET LOCAL'):
+            self.pending.append(self.emit(req, 'C', b'SET\0'))
+            return
+        elif u.startswith('SET '):
+            if self.st_is('I'):
+                if u.startswith('SET ROLE'):
+                    self.role_set = True
+                else:
+                    self.dirty_set = True
+            self.pending.append(self.emit(req, 'C', b'SET\0'))
+            return
+        elif u.startswith('ERROR') or '1/0' in u:
+            if not self.st_is('I'):
+                self.set_status('E')
+            self.pending.append(self.emit(req, 'E', b'SERROR\0C22012\0Mdivision by zero\0\0'))
+            self.ignore_till_sync = True
+            return
+        self.pending.append(self.emit(req, 'D', struct.pack('>hi', 1, 6) + b'b%dr%03d' % (self.idx % 10, req['n'] % 1000)))
+        self.pending.append(self.emit(req, 'C', b'SELECT 1\0'))
 
     def simple_query(self, req, body):
         out = []
@@ -343,7 +418,7 @@ class Backend:
 
 class HandleEnv:
     def __init__(self, ip, prog, backends, client_bytes, pool_over=None, client_over=None, settings_over=None, paused=False,
-                 pending_at=(), on_pending=None):
+                 pending_at=(), on_pending=None, boundaries=()):
         self.ip, self.prog = ip, prog
         if backends and isinstance(backends[0], (list, tuple)):
             shards = [list(x) for x in backends]
@@ -355,6 +430,9 @@ class HandleEnv:
         self.client_bytes = list(client_bytes)
         self.client_stream = StreamV(self.client_bytes, 'client')
         self.client_stream.pending_at = set(pending_at)
+        self.boundaries = {p: k for k, p in enumerate(boundaries)}
+        self._seen_reads = set()
+        self.client_stream.on_read = self._client_read
         self.on_pending = on_pending
         so = dict(settings_over or {})
         if len(shards) > 1:
@@ -381,6 +459,22 @@ class HandleEnv:
         ip.env['frozen_clock'] = FROZEN      # no time passes: no health checks, no idle / ban expiry
         ip.env['no_timeouts'] = True         # the peers answer within every deadline
         self._install()
+
+    def _client_read(self, ip, st):
+        """pgcat starts reading the client's next message: record which server connections the session holds at that moment and
+        their backends' ground truth (used for: an idle client outside a transaction keeps no server)."""
+        k = self.boundaries.get(st.pos)
+        if k is None or k in self._seen_reads:
+            return
+        self._seen_reads.add(k)
+        held = []
+        for b in self.backends:
+            if b.held:
+                t = b.pg.truth()
+                last = b.pg.last_delivered
+                held.append((b.idx, t['status'], t['copy_in'], t['unsynced'], t['unread'] + t['pending'],
+                             bool(last) and last[0].concrete and last[0].v == ord('Z')))
+        self.events.append(('client_read', k, held))
 
     def tick(self):
         self.clock += 1
@@ -626,7 +720,7 @@ def collect_native(res):
                 client_read=None)
 
 
-def judge(data, script, dec, expect_forward=None, cache_on=False, denied=None, expect_incomplete=False, allow_pooler_replies=False):
+def judge(data, script, dec, expect_forward=None, cache_on=False, denied=None, expect_incomplete=False, allow_pooler_replies=False, idle_rule=False):
     """The reference model, evaluated on an observation record.  `script`: the complete client messages (lists of BV) the
     client sent before it stopped; `expect_forward`: what the backends must receive for them (default: completed
     batches).  Returns [(property, key, text)]."""
@@ -649,6 +743,18 @@ def judge(data, script, dec, expect_forward=None, cache_on=False, denied=None, e
     if outcome[0] in ('done', 'panic'):
         for bi in data['held_at_end']:
             V.append(('C04', 'H/guard-leak', 'handle() ended (%s) while the guard of backend %d was never dropped' % (outcome[0], bi)))
+    if idle_rule:
+        # in transaction mode a session that starts reading the client's next message right after a COMPLETED request (Query,
+        # Sync, CopyDone/CopyFail) holds no server unless that server is inside a transaction / COPY
+        for e in data['events']:
+            if e[0] == 'client_read' and e[1] >= 1 and e[2]:
+                prev = code_of(script[e[1] - 1]) if e[1] - 1 < len(script) else None
+                if prev not in ('Q', 'S', 'c', 'f'):
+                    continue
+                for bi, st, copy_in, unsynced, unread, after_ready in e[2]:
+                    # the backend has answered ReadyForQuery(idle), pgcat has read all of it
+                    if after_ready and not unread and not copy_in and not unsynced and dec(st.z() == ord('I')):
+                        V.append(('C04', 'H/idle-client-keeps-server', 'after its request %d completed outside a transaction the session still holds the connection of backend %d while it waits for the client' % (e[1] - 1, bi)))
     nheld = 0
     for e in data['events']:
         if e[0] == 'checkout':
